@@ -666,7 +666,34 @@ impl Case for C03Case {
     }
 }
 
+/// White space of every kind in front of, inside and behind a line (pasted text, foreign files).
+const SPACES: &[&str] = &[" ", "\t", "\u{a0}", "\u{2003}", "\u{3000}", "\u{feff}", "\r", "\u{85}", "\u{2028}", "\u{200b}", "\u{1680}"];
+
 pub fn hostile_line(rng: &mut Rng, valid: &[String]) -> String {
+    let line = hostile_line_plain(rng, valid);
+    if !rng.pct(10) {
+        return line;
+    }
+    let mut out = String::new();
+    for _ in 0..(1 + rng.below(3)) {
+        out.push_str(rng.pick::<&str>(SPACES));
+    }
+    // also between a leading number and the rest, and at the end
+    let digits: String = line.chars().take_while(|c| c.is_ascii_digit()).collect();
+    if !digits.is_empty() && rng.pct(50) {
+        out.push_str(&digits);
+        out.push_str(rng.pick::<&str>(SPACES));
+        out.push_str(&line[digits.len()..]);
+    } else {
+        out.push_str(&line);
+    }
+    if rng.pct(30) {
+        out.push_str(rng.pick::<&str>(SPACES));
+    }
+    out
+}
+
+fn hostile_line_plain(rng: &mut Rng, valid: &[String]) -> String {
     match rng.below(100) {
         0..=14 => soup_bytes(rng),
         15..=39 => token_soup(rng),
